@@ -175,6 +175,47 @@ def run(tier, replay=None):
         if len(emits) < 2:
             raise AnalysisBroken('C12: expected two emit sites in process_edges')
 
+    # ---- T5 checked lookups: the result of find / lower_bound in a neighbour list is tested before it is used:
+    # against end(), and - for lower_bound, which returns the first element NOT LESS than the key - for key equality
+    for unit in ('sparse', 'dense'):
+        for f in F.funcs(unit=unit):
+            if not f['file'].endswith('Flag_complex_edge_collapser.h') or f.get('body') is None:
+                continue
+            lookups = []
+            for x in ir.walk(f['body']):
+                tgt = None
+                rhs = None
+                if x.get('k') == 'VarDecl' and x.get('init') is not None:
+                    tgt, rhs = x.get('n'), x['init']
+                elif x.get('k') in ('BinaryOperator', 'CXXOperatorCallExpr') and x.get('op') == '=':
+                    c = x.get('c') or []
+                    tgt, rhs = ir.show(c[0] if x['k'] == 'BinaryOperator' else c[1]), c[-1]
+                if rhs is None:
+                    continue
+                r = ir.skipcasts(rhs)
+                if ir.is_call(r) and ir.call_name(r) in ('find', 'lower_bound', 'upper_bound'):
+                    args = ir.call_args(r)
+                    key = ir.show(args[0]) if ir.call_name(r) == 'find' else (ir.show(args[2]) if len(args) >= 3
+                                                                               else None)
+                    lookups.append((tgt, ir.call_name(r), key, x))
+            for it, kind, key, node in lookups:
+                derefs = [y for y in ir.walk(f['body']) if y.get('k') in ir.MEMBER_KINDS and y.get('arrow') and
+                          y.get('c') and ir.show(y['c'][0]) == it and y.get('l', 0) >= node.get('l', 0)]
+                if not derefs:
+                    continue
+                body_t = [ir.show(y) for y in ir.walk(f['body']) if y.get('k') in ('BinaryOperator',
+                                                                                   'CXXOperatorCallExpr')
+                          and y.get('op') in ('==', '!=')]
+                end_ok = any(it in t and ('end()' in t or t.split()[-1].rstrip(')') in ('me', 'ue', 've', 'ce'))
+                             for t in body_t)
+                eq_ok = kind == 'find' or any((it + '->first') in t and key and key in t for t in body_t)
+                chk.ob('E2g-checked-lookup', '%s (%s): the %s result %s is tested before it is dereferenced'
+                       % (f['name'], unit, kind, it), '%s:%s' % (H, node.get('l')), end_ok and eq_ok,
+                       '' if end_ok and eq_ok else ('the result is never compared with end()' if not end_ok else
+                       'lower_bound returns the first entry not less than %s: without comparing %s->first with %s a '
+                       'different vertex is taken for the one looked up' % (key, it, key)),
+                       key='E2g|%s|%s|lookup-%s' % (f['name'], unit, it))
+
     # ---- T4 edge sort
     lam = {}
     for unit in ('sparse', 'tbb'):
